@@ -59,24 +59,7 @@ Proof.
     apply renders_ws_prefix; [apply ws_nl| |exact Rv].
     intros E. apply app_eq_nil in E. destruct E as [_ E]. discriminate. }
   destruct (renders_Lexes _ _ _ Rall p) as (q & HL & Hq).
-  (* the state behind the three header tokens *)
-  set (mid := [10] ++ (core ++ trail v ++ ([10] ++ kw_endobj ++ tl))).
-  assert (Rhead : renders [IWord (dec_of_N id); IWord (dec_of_N gen); IWord kw_obj] (obj_text id gen (core ++ trail v) rest) mid).
-  { rewrite T.
-    apply rn_reg; [constructor|exact Nid|exact Rid|reflexivity|].
-    apply rn_reg; [apply sep_of_ws, ws_sp|exact Ngen|exact Rgen|reflexivity|].
-    apply rn_reg; [apply sep_of_ws, ws_sp|exact No|exact Ro|reflexivity|]. constructor. }
-  destruct (renders_Lexes _ _ _ Rhead p) as (q1 & HLh & _).
-  assert (Rmid : renders (items_of v ++ [IWord kw_endobj]) mid tl).
-  { apply renders_ws_prefix; [apply ws_nl| |exact Rv].
-    intros E. apply app_eq_nil in E. destruct E as [_ E]. discriminate. }
-  destruct (parse_indirect_spelled_at v (items_of v) (dec_of_N id) (dec_of_N gen) id gen Hsp Pid Pgen R allow
+  destruct (parse_indirect_spelled v (items_of v) (dec_of_N id) (dec_of_N gen) id gen Hsp Pid Pgen R allow
               (mkLx p (obj_text id gen (core ++ trail v) rest)) [] (mkLx q tl) Hd HL) as (s1 & E & HL1).
-  - intros t1 t2 t3 E1 E2 E3.
-    destruct (Lexes_word_inv _ _ _ _ HLh) as [u1 [F1 HLh1]]. rewrite E1 in F1. injection F1 as <-.
-    destruct (Lexes_word_inv _ _ _ _ HLh1) as [u2 [F2 HLh2]]. rewrite E2 in F2. injection F2 as <-.
-    destruct (Lexes_word_inv _ _ _ _ HLh2) as [u3 [F3 HLh3]]. rewrite E3 in F3. injection F3 as <-.
-    inversion HLh3; subst. unfold fuel_for. cbn [lrest].
-    pose proof (renders_length _ _ _ Rmid) as Hlen. rewrite app_length in Hlen. cbn [length] in Hlen. lia.
-  - inversion HL1; subst. rewrite E. f_equal. f_equal. f_equal. unfold tl in *. lia.
+  inversion HL1; subst. rewrite E. f_equal. f_equal. f_equal. unfold tl in *. lia.
 Qed.
